@@ -243,7 +243,7 @@ def enumerate_ops(src: str, *, nk=3, nks=2, forms=('src', 'ast', 'fst'), opts=({
                 for text, _ in K_ONE['identifier']:
                     yield {'op': 'put', 'path': p, 'field': field, 'code': [text, None, 'src'], 'opts': {}}
             elif want('identifier') and (ncls, field) in (('Constant', 'value'), ('MatchSingleton', 'value')):
-                for v in (True, None, 7, 'zz') if ncls == 'Constant' else (True, None):  # primitive values (other type than before too)
+                for v in (True, None, 7, 'zz', -0.0) if ncls == 'Constant' else (True, None):  # primitive values (other type than before too)
                     if not (v == getattr(node, field) and type(v) is type(getattr(node, field))):
                         yield {'op': 'put', 'path': p, 'field': field, 'code': [v, None, 'src'], 'opts': {}}
             elif want('identifier') and (ncls, field) == ('ImportFrom', 'level'):
